@@ -309,7 +309,7 @@ func genC16Msg(t *rapid.T) (sdk.Msg, []string) {
 		return cell("description", genBounded(t, "desc", 0, 5000, false))
 	}
 	pstr := func(f string) string {
-		return cell(f, rapid.SampledFrom([]fieldVal{{"x", "present"}, {"x", "present"}, {"", "empty"}, {" ", "blank"}, {"a\x00b", "nul"}, {sized(300, "z"), "long"}, {"\xff", "invalid-utf8"}}).Draw(t, f))
+		return cell(f, rapid.SampledFrom([]fieldVal{{"x", "present"}, {"x", "present"}, {"", "empty"}, {" ", "blank"}, {"a\x00b", "nul"}, {"\x00a", "leading-nul"}, {"\x00", "only-nul"}, {"a\x00", "trailing-nul"}, {"\x00a\x00", "nul-both-ends"}, {sized(300, "z"), "long"}, {"\xff", "invalid-utf8"}}).Draw(t, f))
 	}
 	switch rapid.IntRange(0, 13).Draw(t, "msgtype") {
 	case 0:
